@@ -15,6 +15,7 @@ RULE = (
     "seeded schedules with 4 peers. Non-trivial: at least one send was routed and one was refused. Spec oracle: recv = "
     "[identity of the revealing connection] + frames; a routed send appears, minus its first frame, on exactly that "
     "peer's wire; a refused send leaves every wire empty."
+    ' Family transient-write: a transient write error before any byte or after a partial write (17 bytes) while ROUTER writes to the addressed peer: `Ok` means exactly one copy of the message minus its first frame on that connection, an error at most one; nothing on any other connection; a send to another peer afterwards is unaffected.'
 )
 ASSUMPTIONS = ["identities of simultaneously connected peers are distinct", "auto-assigned identities are compared through placeholders"]
 TRUSTED = ["uuid v4 uniqueness of auto-assigned identities"]
@@ -49,6 +50,38 @@ def abandon_cases(n0):
     return out
 
 
+def transient_cases(n0):
+    """a TRANSIENT write error (`wrerr1`: exactly one write fails — EINTR, a timeout), before any byte or after a partial
+    write, while ROUTER writes to the addressed peer: `Ok` means exactly one copy of the message (minus its first frame)
+    on that peer's connection, an error means at most one; nothing on any other connection"""
+    out = []
+    n = n0
+    for kind in ("Interrupted", "WouldBlock", "TimedOut", "BrokenPipe"):
+        for credit in (None, 17):
+            for body in ([b"hello"], [b"x" * 1000, b"y" * 40]):
+                sc = wg.Script()
+                sc.sock(1, "ROUTER")
+                sc.attach(1, 1, "DEALER", b"target")
+                sc.attach(1, 2, "DEALER", b"other")
+                sc.add("wire 1", "wire 2")
+                if credit is not None:
+                    sc.add(f"credit 1 {credit}")
+                f = sc.fut()
+                sc.add(f"send {f} 1 {wg.mtok([b'target'] + body)}")
+                if credit is not None:
+                    sc.add(f"poll {f}", "wire 1", f"wrerr1 1 {kind}", "credit 1 inf", f"poll {f}")
+                else:
+                    sc.add(f"wrerr1 1 {kind}", f"poll {f}")
+                sc.add(f"drop {f}", "wire 1", "wire 2")
+                g = sc.fut()
+                sc.add(f"send {g} 1 {wg.mtok([b'other', b'fine'])}", f"poll {g}", f"drop {g}", "wire 1", "wire 2")
+                c = sc.case(f"transient-write-{kind}#{n}", ["transient-write"])
+                c.expect = ("transient", f, body)
+                out.append(c)
+                n += 1
+    return out
+
+
 def ident_of(spec, k):
     """identity the model/harness will show for the k-th auto peer or the announced one"""
     return spec
@@ -61,6 +94,7 @@ def cases(tier, rng):
     for i in range(150 if tier == "quick" else 3000):
         out.append(wg.random_case(rng, f"random-world#{i}", ["ROUTER"], tags=("random-world",)))
     out += abandon_cases(100000)
+    out += transient_cases(200000)
     n = 0
     # routing
     for npeers in (1, 2, 3):
@@ -290,6 +324,19 @@ def oracle(case, lines):
         got = [l for op, l in res if op.startswith("poll") and l.startswith("ready ok M[")]
         if not got or not got[-1].startswith(f"ready ok M[{wg.show_frames([case.expect[1]])},"):
             return f"message of the reconnected client not labelled with its identity: {got[-1][:80] if got else None}"
+        return None
+    if kind == "transient":
+        _, f, body = case.expect
+        w1 = "".join(l.split(" ", 1)[1] for op, l in res if op == "wire 1" and l != "wire .")
+        w2 = "".join(l.split(" ", 1)[1] for op, l in res if op == "wire 2" and l != "wire .")
+        enc = zmtp.message(body).hex()
+        k = w1.count(enc)
+        outcome = [l for op, l in res if op == f"poll {f}"][-1]
+        if k > 1 or (outcome == "ready ok" and k != 1):
+            return (f"ROUTER's send returned `{outcome}` and the addressed peer's connection carries the message {k} times (a "
+                    "transient write error while it was being written)")
+        if enc in w2:
+            return "the message was written to a connection it was not addressed to"
         return None
     if kind == "abandon":
         _, ident, credit, k = case.expect
